@@ -82,3 +82,4 @@ pub fn catch<R>(f: impl FnOnce() -> R) -> Result<R, String> {
         }
     }
 }
+pub mod opforms;
